@@ -20,20 +20,27 @@ Definition W (m : N) : N := fold_left (fun acc v => fmul acc v) (range 1 m) 1.
 
 Definition log2n (m : N) : nat := N.to_nat (N.log2 m).
 
-(* G[j][i], high rate: m = next_power_of_two(recovery_count) *)
-Definition cauchy_high (R : N) (j i : N) : N :=
+(* G[j][i], high rate: m = next_power_of_two(recovery_count); [w] = W m *)
+Definition cauchy_high_w (w : N) (R : N) (j i : N) : N :=
   let m := npow2 R in
-  fdiv (s_poly (log2n m) (m + i)) (fmul (W m) (N.lxor j (m + i))).
+  fdiv (s_poly (log2n m) (m + i)) (fmul w (N.lxor j (m + i))).
+Definition cauchy_high (R : N) (j i : N) : N := cauchy_high_w (W (npow2 R)) R j i.
 (* low rate: m = next_power_of_two(original_count) *)
-Definition cauchy_low (K : N) (j i : N) : N :=
+Definition cauchy_low_w (w : N) (K : N) (j i : N) : N :=
   let m := npow2 K in
-  fdiv (s_poly (log2n m) (m + j)) (fmul (W m) (N.lxor (m + j) i)).
+  fdiv (s_poly (log2n m) (m + j)) (fmul w (N.lxor (m + j) i)).
+Definition cauchy_low (K : N) (j i : N) : N := cauchy_low_w (W (npow2 K)) K j i.
 
 Definition xor_sum (l : list N) : N := fold_left N.lxor l 0.
-Definition recovery_high_spec (K R : N) (d : list N) (j : N) : N :=
-  xor_sum (map (fun p => fmul (cauchy_high R j (fst p)) (snd p)) (combine (range 0 K) d)).
-Definition recovery_low_spec (K R : N) (d : list N) (j : N) : N :=
-  xor_sum (map (fun p => fmul (cauchy_low K j (fst p)) (snd p)) (combine (range 0 K) d)).
+(* row j of G and its application to one symbol slot of the originals *)
+Definition cauchy_high_row (K R j : N) : list N :=
+  let w := W (npow2 R) in map (cauchy_high_w w R j) (range 0 K).
+Definition cauchy_low_row (K R j : N) : list N :=
+  let w := W (npow2 K) in map (cauchy_low_w w K j) (range 0 K).
+Definition row_apply (row d : list N) : N :=
+  xor_sum (map (fun p => fmul (fst p) (snd p)) (combine row d)).
+Definition recovery_high_spec (K R : N) (d : list N) (j : N) : N := row_apply (cauchy_high_row K R j) d.
+Definition recovery_low_spec (K R : N) (d : list N) (j : N) : N := row_apply (cauchy_low_row K R j) d.
 
 (* LCH basis polynomial X_t(x) = prod over set bits j of t of s_j(x) *)
 Fixpoint lch_basis_aux (bits : nat) (j : nat) (t x : N) : N :=
